@@ -165,12 +165,40 @@ def judge_string(asm, acc, text, indent=''):
                       key=None)
 
 
+def locale_case(asm, acc):
+    """a UTF-8 source file with non-ASCII text, assembled by a process whose locale is not UTF-8 (LC_ALL=C, UTF-8 mode off)"""
+    import os, shutil, tempfile
+    from .. import cli
+    root = tempfile.mkdtemp(prefix='bbv-c10-')
+    try:
+        text = 'caf\u00e9 \u20ac \u4e2d'
+        with open(os.path.join(root, 'main.asm'), 'w', encoding='utf-8') as f:
+            f.write('string %s\nalign 2\n' % text)
+        with open(os.path.join(root, 'inc.asm'), 'w', encoding='utf-8') as f:
+            f.write('# d\u00e9finitions\nstring \u00df\n')
+        with open(os.path.join(root, 'outer.asm'), 'w', encoding='utf-8') as f:
+            f.write('include inc.asm\nalign 2\n')
+        for name, want in (('main.asm', text.encode('utf-8')), ('outer.asm', '\u00df'.encode('utf-8'))):
+            acc['n'] += 1
+            r = cli.run_cli([name, '-o', name + '.bin'], root, extra_env={'LC_ALL': 'C', 'LANG': 'C', 'PYTHONUTF8': '0', 'PYTHONCOERCECLOCALE': '0'})
+            acc['ctr']['runs_under_the_C_locale'] += 1
+            acc['ntkeys'].add(core.ckey('locale', name))
+            got = open(os.path.join(root, name + '.bin'), 'rb').read() if os.path.exists(os.path.join(root, name + '.bin')) else None
+            if r.returncode != 0 or got is None or not got.startswith(want):
+                core.add_viol(acc, 'command line under LC_ALL=C on a UTF-8 source (%s): exit %d, output %s; the text is %s (%s)' % (
+                    name, r.returncode, got.hex() if got is not None else None, want.hex(), r.stderr.strip()[-120:]), {'kind': 'locale'}, {})
+    finally:
+        shutil.rmtree(root, ignore_errors=True)
+
+
 def string_shard(asm, acc, sh, deadline):
     rng = random.Random('c10-str-%d-%d' % (sh['seed'], sh['idx']))
     for t in ['hello', '"world"', '"hello world"', 'hello  ##  world', 'hello\\nworld', '  hello\\\\nworld', 'é', 'x', ' ', '#', "it's", 'tab\\there']:
         judge_string(asm, acc, t)
     for ch in NONASCII:
         judge_string(asm, acc, ch)
+    if sh['idx'] == 0:
+        locale_case(asm, acc)
     for t in ['\\ud800', 'a\\udfffb', '\\ud83d\\ude00', 'x\\udc00']:
         # an escape for a surrogate code point names a character that has no UTF-8 form: nothing well-formed can be emitted
         acc['n'] += 1
@@ -371,6 +399,8 @@ def replay(case):
         judge_numeric(asm, acc, case['line'], [tuple(p) for p in case['pieces']], case)
     elif case['kind'] == 'str':
         judge_string(asm, acc, case['text'], case.get('indent', ''))
+    elif case['kind'] == 'locale':
+        locale_case(asm, acc)
     elif case['kind'] == 'surrogate':
         acc['n'] += 1
         o = monitors.observe(asm, 'string ' + case['text'] + '\n', tap=False)
